@@ -11,7 +11,7 @@ NA = {
  'C10': "absence of a side effect across the whole resolved dependency closure; not a function contract",
 }
 TEXT = {
- 'C01': ("proof", "Panic-freedom and termination are PROVED (Verus, unbounded) for the engine every rule and the plain-English front-end run on: all Span methods, 12 sub-lexers (incl. the white-space, hostname and e-mail lexers through desugarings R7/R10/R11) + dispatcher + tiling loop, the URL scanner, VecExt::remove_indices (R9), Document::match_quotes, the Pattern trait contract (matches <= len) for 13 impls, run_on_chunk, find_all_matches, Wagner-Fischer rows, four condensing passes, Mask::push_allowed / merge_whitespace_sep, and parsers::Mask<M,P>::parse (the composition behind every masked front-end). The white-space lexers and the JSDoc inline-tag scanner are additionally run through bounded Kani harnesses; Document::parse, Markdown, Typst, Literate Haskell and the comment front-ends by bounded runtime contract checks (all labelled bounded, not counted as proved). Rule bodies and external-parser front-ends are otherwise unverified.", "§3 C01"),
+ 'C01': ("proof", "Panic-freedom and termination are PROVED (Verus, unbounded) for the engine every rule and the plain-English front-end run on: all Span methods, 12 sub-lexers (incl. the white-space, hostname and e-mail lexers through desugarings R7/R10/R11) + dispatcher + tiling loop, the URL scanner, VecExt::remove_indices (R9), Document::match_quotes, the line-based comment parsers (Unit / Go / JsDoc / JavaDoc::parse, parse_line), GitCommitParser, HtmlParser, LiterateHaskellMasker::create_mask, the Pattern trait contract (matches <= len) for 13 impls, run_on_chunk, find_all_matches, Wagner-Fischer rows, four condensing passes, Mask::push_allowed / merge_whitespace_sep, and parsers::Mask<M,P>::parse (the composition behind every masked front-end). The white-space lexers and the JSDoc inline-tag scanner are additionally run through bounded Kani harnesses; Document::parse, Markdown, Typst, Literate Haskell and the comment front-ends by bounded runtime contract checks (all labelled bounded, not counted as proved). Rule bodies and external-parser front-ends are otherwise unverified.", "§3 C01"),
  'C02': ("proof", "PlainEnglish::parse (real body) is PROVED to return tokens that tile the text exactly (in bounds, ordered, disjoint, gap-free, non-empty) for all inputs, given the sub-lexer contracts (12 proved; assumed: lex_number, lex_hex_number, lex_hostport); lexical shape proved for spaces / tabs / newlines (only that character), decades, quotes, punctuation, regexish, catch-all; Document::match_quotes PROVED to leave every quote pointing at another existing quote that points back; number-suffix letters proved for slices of every length; condense_spaces / condense_newlines / condense_dotted_initialisms / condense_number_suffixes are PROVED to preserve the tiling, VecExt::remove_indices (the deletion helper they use) PROVED to delete exactly the listed positions; parsers::Mask<M,P>::parse is PROVED to return in-bounds, ordered, non-overlapping tokens for the whole file given the Masker and inner-Parser trait contracts; Space/Newline shape also Kani-bounded; the remaining passes and Markdown token order bounded (runtime contract checks). Other front-ends unverified.", "§3 C02"),
  'C03': ("proof", "Suggestion::apply (the real body, extracted mechanically) is PROVED equal to the mathematical splice for all (text, span, suggestion) with span inside the text; locality lemmas restate the property over that spec; run_on_chunk is proved to hand every rule a non-empty in-bounds sub-slice. LintGroup::lint (chunk cache) is checked by a bounded runtime contract check only. That every rule's span is inside the text is NOT proved.", "§3 C03"),
  'C08': ("model_checking", "PROVED (Verus, unit pos_conv, desugarings R12/R13): index_to_position and span_to_range return exactly the reference LSP position (LF count, UTF-16 units since the last LF) for every text shorter than 2^31 characters and every in-range index; positions are strictly increasing in the index, so a non-empty span gives a non-empty ordered range; position_to_index / range_to_span are PROVED to invert them for every index on an LF-terminated line or in a text without LF (the final line of a text with LF is the known finding D4). BOUNDED model checking (Kani/CBMC) in addition: index_to_position equals an independent executable reference and the position/span round trips hold for every text of length <= 3 (quick) / <= 5 (thorough) over a 6-symbol alphabet covering LF, CR, TAB, 1- and 2-unit UTF-16 characters and a combining mark. Diagnostics, code-action lookup and TextEdit construction are checked by a bounded runtime contract check on 19 texts. The final-line defect D4 is a known finding. Not a proof.", "§3 C08"),
@@ -20,7 +20,7 @@ TEXT = {
  'C17': ("proof", "NumberSuffix::correct_suffix_for is PROVED (Kani, loop-free, full domain) to equal the English ordinal rule for every integer 0 <= n < 2^53; from_chars/to_chars PROVED for slices of every length (Verus) and all char pairs (Kani); the lint span arithmetic (last two characters) PROVED; the token-merging pass PROVED to keep the tokens tiling. The rule end to end (lexing, merging, lint span, suggestion, re-check) is checked by a bounded runtime contract check on 221 integers at 8 positions.", "§3 C17"),
 }
 TEXT.update({
- 'C04': ("exploration", "The composition step every masked front-end runs through, parsers::Mask<M,P>::parse, is PROVED (Verus) to shift chunk tokens to their place in the file, keep them in order and emit nothing but structural breaks outside the spans the masker allowed, given the Masker / inner-Parser trait contracts; Mask::push_allowed and merge_whitespace_sep are proved to keep masks well formed. The front-ends themselves wrap external parsers: they are covered by a BOUNDED runtime check only - files assembled from segments with known prose words (7 languages + Markdown, multi-byte text in code and comments, CR LF, indentation, ignore markers, inline code): the Word tokens are exactly the declared words at their declared offsets.", "§3 C04"),
+ 'C04': ("exploration", "The composition step every masked front-end runs through, parsers::Mask<M,P>::parse, is PROVED (Verus) to shift chunk tokens to their place in the file, keep them in order and emit nothing but structural breaks outside the spans the masker allowed, given the Masker / inner-Parser trait contracts; the line-based comment parsers (Unit / Go / JsDoc / JavaDoc::parse, parse_line), GitCommitParser and HtmlParser are PROVED to return in-bounds ordered tokens moved to their line's offset (given the inner-Parser contract and without_initiators' contract), LiterateHaskellMasker::create_mask is PROVED to meet the Masker contract (abstraction A1 for its str tests); Mask::push_allowed and merge_whitespace_sep are proved to keep masks well formed. The front-ends themselves wrap external parsers: they are covered by a BOUNDED runtime check only - files assembled from segments with known prose words (7 languages + Markdown, multi-byte text in code and comments, CR LF, indentation, ignore markers, inline code): the Word tokens are exactly the declared words at their declared offsets.", "§3 C04"),
  'C06': ("exploration", "BOUNDED runtime check of the contract of SpellCheck::lint against Dictionary::words_iter (data-dependent; nothing proved): every (quick: every 4th) curated entry the lexer reads as one word, in its listed, capitalised and upper-case form, alone and inside a sentence, American and British dialect, is not reported; mutated non-words are reported exactly once with the exact span and every suggestion is a dictionary word of the dialect.", "§3 C06"),
  'C12': ("exploration", "BOUNDED runtime check of the relational contract lint(P ++ D) == lint(P) ++ shift(lint(D), |P|) (whole pipeline; nothing proved) on 110 x 63 pairs of harvested rule-test sentences, P quote-free and terminated, all curated rules on.", "§3 C12"),
  'C16': ("exploration", "BOUNDED runtime check of the invariant and operation contracts of harper_wasm::Linter, run natively (nothing proved): spans in bounds and disjoint, problem text exact, JSON round trips, apply_suggestion == splice, ignore/export/clear/import, custom words, configuration overlay undone, to_title_case - on scripted call sequences over 30 texts x 2 languages.", "§3 C16"),
